@@ -362,11 +362,10 @@ def oracle_template(o):
             if name in data and isinstance(data[name][0], str):
                 v = data[name][0]
                 if v == '' or v != v.strip(): return [], 1     # blank-only differences are not claimed
-                if '@' in v or '\\' in v: return [], 1         # see oracle_define_value
             form = define_form('meson', name, data)
             text += lead + '#mesondefine' + mid + name + trail + eol
-            expected += form + '\n'                           # what the documentation shows
-            strict_expected += lead + form + trail + eol      # "every other byte unchanged"
+            expected += form + (eol or '\n')                  # the documented form; the line keeps its own terminator
+            strict_expected += form + (eol or '\n')
         elif ls[0] == 'C':
             _, lead, gap, kw, mid, name, trail, eol = ls
             if fmt == 'meson' or kw not in ('cmakedefine', 'cmakedefine01'): return [], 1
@@ -375,8 +374,8 @@ def oracle_template(o):
             form = define_form(kw, name, data)
             if '@' in form or '$' in form: return [], 1
             text += lead + '#' + gap + kw + mid + name + trail + eol
-            expected += form + '\n'
-            strict_expected += lead + form + trail + eol
+            expected += form + (eol or '\n')
+            strict_expected += form + (eol or '\n')
         else:
             return [], 1
     cd = mk_conf(data)
